@@ -27,7 +27,12 @@ theorem NewConst_eq (ops : ℝ) (D : ℤ) (h : 0 ≤ ops) :
     NewConst ops D = Sched.doAt D (Go.f2i (ops * secs D)) (fun i => Go.f2i ((i : ℝ) * (1000000000 / ops))) := by
   unfold NewConst constDoAt secs
   have : ¬ ops < 0 := not_lt.mpr h
-  simp [this]
+  simp only [this, if_false]
+  -- up to commutative-ring identities of the two float expressions (a reordering of factors is not a change)
+  all_goals
+    refine congrArg₂ (Sched.doAt D) ?_ ?_
+    · congr 1 <;> ring
+    · funext i; congr 1 <;> ring
 
 /-- slope of the line profile, operations per second² -/
 noncomputable def slope (f t : ℝ) (D : ℤ) : ℝ := (t - f) / secs D
